@@ -1,4 +1,5 @@
 import XalanModel.C18.Dbl
+import XalanModel.Generated.C18_NumberConsts
 /-!
 # `DoubleSupport::round / floor / ceiling`  (DoubleSupport.cpp 702-770, DoubleSupport.hpp, as written)
 `x + 0.5` is an IEEE addition (exact sum, one rounding).  `long(…)` truncates toward zero; both
@@ -23,7 +24,8 @@ def viaLong : Dbl → Dbl
   | .fin n m e => Dbl.ofInt (truncInt n m e)
   | y => y
 
-def round : Dbl → Dbl
+/-- `DoubleSupport::round` as written before the repair (variant 0: `long(x + 0.5)`) -/
+def roundV0 : Dbl → Dbl
   | .nan => .nan
   | .inf n => .inf n
   | .fin neg m e =>
@@ -51,6 +53,31 @@ def ceiling : Dbl → Dbl
     if isInteger m e then .fin neg m e
     else let f := floorInt neg m e + 1; if f = 0 then zero neg else Dbl.ofInt f
   | y => y
+
+/-- integral part delivered by `std::modf` (exact; carries the sign of the argument, also when zero) -/
+def modfInt : Dbl → Dbl
+  | .fin n m e =>
+    if isInteger m e then .fin n m e
+    else let t := truncInt n m e; if t = 0 then zero n else Dbl.ofInt t
+  | y => y
+
+/-- `|fracPart| >= 0.5` / `> 0.5` for the (exact) fractional part delivered by `std::modf` -/
+def fracGeHalf (m : Nat) (e : Int) : Bool := e < 0 && 2 * (m % 2 ^ (-e).toNat) ≥ 2 ^ (-e).toNat
+def fracGtHalf (m : Nat) (e : Int) : Bool := e < 0 && 2 * (m % 2 ^ (-e).toNat) > 2 ^ (-e).toNat
+
+/-- `DoubleSupport::round`, repaired form (proposed/C18-round.diff):
+`x == 0 → x;  x > 0 → frac >= 0.5 ? ceil(x) : intPart;  x < 0 → frac < -0.5 ? floor(x) : intPart` -/
+def roundV1 : Dbl → Dbl
+  | .nan => .nan
+  | .inf n => .inf n
+  | .fin neg m e =>
+    if m = 0 then .fin neg m e
+    else if !neg then (if fracGeHalf m e then ceiling (.fin neg m e) else modfInt (.fin neg m e))
+    else (if fracGtHalf m e then floor (.fin neg m e) else modfInt (.fin neg m e))
+
+/-- `DoubleSupport::round` of the current source: the translator recognises which of the two
+transcribed forms the function body has (`Generated.C18.roundVariant`) -/
+def round (x : Dbl) : Dbl := if Generated.C18.roundVariant = 1 then roundV1 x else roundV0 x
 
 /-! ### specification (XPath 1.0 §4.4) -/
 
